@@ -5,7 +5,10 @@
 // MerkleTreeLeafFromChain / MerkleTreeLeafForEmbeddedSCT / ctutil.VerifySCT, and SCT lists
 // through ASN1MarshalSCTs / certificate parsing / ParseSCTsFromSCTList.
 //
-// Five streams: random pairs (one with forcedEKU == nil), the class "EKU lists of the
+// Six streams: random pairs (one with forcedEKU == nil), the class "names and authority key ids of the
+// pre-issuer" (nameClasses: the pre-issuer's subject name is the very octets of its issuer's name / the same
+// name in another string type / another name, crossed with replace / none / delete / append of the authority
+// key id), the class "EKU lists of the
 // pre-issuer" (ekuClasses), the class "length boundaries of the re-encoded elements"
 // (boundaries), the class "criticality flags" (critClasses: the critical flag of one kind of extension,
 // or of all, departs from the issuer's habit; half of the random pairs draw the flags of all their
